@@ -35,9 +35,9 @@ import (
 )
 
 var verifC19Idx struct {
-	lo, hi     uint64 // requested range
-	nodes      map[*ipldbindcode.Transaction]*verifC19Tx
-	nodeOf     []*ipldbindcode.Transaction // by transaction id
+	lo, hi    uint64 // requested range
+	nodes     map[*ipldbindcode.Transaction]*verifC19Tx
+	nodeOf    []*ipldbindcode.Transaction // by transaction id
 	incl      []string
 	failQuery int // the index query for the include account with this position fails (-1: none)
 	limit     int
@@ -107,13 +107,37 @@ func getTransactionAndMetaFromNode(
 	return t.wire.Transaction, t.wire.Meta, nil
 }
 
-var verifC19IdxTemplates = []string{"2", "11", "1s1", "12", "111", "3"}
+// scenarios (param "scenarios" = how many of them are explored):
+//
+//	0: windows of two transactions ("2", thorough also "11"), whole range, the first `profiles` filter profiles
+//	1: window "12" (three transactions: more than the scaled batch limit), include [A] / [A,B]
+//	2: windows "1s1" / "111", request = whole window, first slot dropped, last slot dropped; include [A,B]
+//	3: window "2", include [A,B], the index query for the first / second account fails
+var verifC19IdxProfiles = [][3]int{{1, 0, 0}, {2, 0, 0}, {2, 3, 0}, {2, 0, 1}}
 
 func VerifC19Indexed() {
 	verifC19Reset(verifC19Base)
-	ntpl := verifParam("templates", 3)
-	tpl := verifC19IdxTemplates[verifChoice("window", ntpl)]
+	scen := verifChoice("scenario", verifParam("scenarios", 1))
 	symVote := verifParam("sym_vote", 0) == 1
+	var tpl string
+	var p [3]int
+	subrange, failing := 0, -1
+	switch scen {
+	case 0:
+		tpl = []string{"2", "11"}[verifChoice("window", verifParam("templates", 1))]
+		p = verifC19IdxProfiles[verifChoice("profile", verifParam("profiles", 2))]
+	case 1:
+		tpl = "12"
+		p = verifC19IdxProfiles[verifChoice("profile", 2)]
+	case 2:
+		tpl = []string{"1s1", "111"}[verifChoice("window", 2)]
+		p = verifC19IdxProfiles[1]
+		subrange = verifChoice("subrange", 3)
+	default:
+		tpl = "2"
+		p = verifC19IdxProfiles[1]
+		failing = verifChoice("failing_query", 2)
+	}
 	verifC19Window(tpl, func(t *verifC19Tx) {
 		if !symVote {
 			t.prog = 9
@@ -136,13 +160,11 @@ func VerifC19Indexed() {
 
 	// requested range: the whole window or a proper sub-range
 	lo, hi := 0, n-1
-	if verifParam("subranges", 0) == 1 && n >= 2 {
-		switch verifChoice("subrange", 3) {
-		case 1:
-			lo = 1
-		case 2:
-			hi = n - 2
-		}
+	switch subrange {
+	case 1:
+		lo = 1
+	case 2:
+		hi = n - 2
 	}
 	verifC19Idx.lo, verifC19Idx.hi = verifC19.start+uint64(lo), verifC19.start+uint64(hi)
 
@@ -150,14 +172,9 @@ func VerifC19Indexed() {
 	f := &verifC19FilterSpec{}
 	f.vote = verifBool("filter.vote")
 	f.failed = verifBool("filter.failed")
-	profiles := [][3]int{{1, 0, 0}, {2, 0, 0}, {2, 3, 0}, {2, 0, 1}, {3, 1, 0}, {1, 0, 2}}
-	p := profiles[verifChoice("profile", verifParam("profiles", 3))]
 	f.incl, f.excl, f.req = verifC19Lists[p[0]], verifC19Lists[p[1]], verifC19Lists[p[2]]
 	verifC19Idx.incl = f.incl
-	verifC19Idx.failQuery = -1
-	if verifParam("query_errors", 0) == 1 {
-		verifC19Idx.failQuery = verifChoice("failing_query", len(f.incl)+1) - 1
-	}
+	verifC19Idx.failQuery = failing
 
 	// examined by the property: the transactions of the blocks of the requested range
 	var exam []*verifC19Tx
